@@ -104,6 +104,30 @@ def generate(tier, seed, work, stats):
     return cases
 
 
+def misc_event(a, A, syms):
+    """The small queries: get_number_transitions, len, eclose(state), a(state, symbol), is_final_state, to_dict."""
+    from harness import fa
+    from pyformlang.finite_automaton import Epsilon
+    ev = {"op": "misc", "A": A}
+    try:
+        ev["ntrans"] = a.get_number_transitions()
+        ev["len"] = len(a)
+        states = sorted(a.states, key=lambda s: fa.tag(s))
+        ev["eclose"] = [[fa.tag(s), sorted(fa.tag(x) for x in a.eclose(s))] for s in states] if hasattr(a, "eclose") else []
+        ev["calls"] = [[fa.tag(s), fa.tag_sym(y), sorted(fa.tag(x) for x in a(s, y))] for s in states for y in list(syms) + [Epsilon()]]
+        ev["isfinal"] = [[fa.tag(s), bool(a.is_final_state(s))] for s in states]
+        td = []
+        for p, d in a.to_dict().items():
+            for y, qs in d.items():
+                for q in (qs if isinstance(qs, (set, list, frozenset)) else [qs]):
+                    td.append([fa.tag(p), fa.tag_sym(y), fa.tag(q)])
+        ev["todict"] = td
+    except Exception as e:  # pylint: disable=broad-except
+        ev["exc"] = type(e).__name__
+        ev["msg"] = str(e)[:200]
+    return ev
+
+
 def replay(case):
     from harness import fa, guard
     ccalls, tagged = fa.concrete(case["calls"], case["spool"], case["ypool"], case.get("perm"))
@@ -127,6 +151,7 @@ def replay(case):
         ev = {"op": "accepts", "A": A, "exc": exc, "words": [], "acc": []}
     evs.append(ev)
     evs.append(fa.bool_event("is_deterministic", A, guard.call(a.is_deterministic)))
+    evs.append(misc_event(a, A, [ymap["a"], ymap["b"]]))
     for op in ("to_deterministic", "remove_epsilon_transitions", "minimize", "copy"):
         r = guard.call(getattr(a, op))
         evs.append(fa.result_event(op, A, r))
